@@ -1239,6 +1239,11 @@ def process_fn(fn, spec, handle, stats, canary):
             cl_ = match_close(body, op_, "(", ")")
             body = body[:lm.start()] + "Lazy::defer(%s)" % spec.lazy + body[cl_ + 1:]
             stats["R11"] = stats.get("R11", 0) + 1
+    for (fname, tags_, rx_cell) in getattr(spec, "atomics", []):
+        if fname != name:
+            continue
+        n_acq = len(re.findall(r"(?:%s)\s*\.\s*(?:try_)?rc_deref(?:_mut)?\s*\(" % rx_cell, mask_trivia(body)))
+        stats.setdefault("atomic_sections", []).append([name, tags_.split(","), rx_cell, n_acq])
     # R14: `ready!(E)` (futures-rs) by its definition
     for _ in range(6):
         rm_ = re.search(r"\bready!\s*\(", mask_trivia(body))
@@ -1819,6 +1824,14 @@ def generate_(template_path, variant, canary=False):
                     i += 1
                 elif t[0] == "@@lazyclosures":
                     spec.lazy = t[1]
+                    i += 1
+                elif t[0] == "@@atomic":
+                    # @@atomic <fn> [tags] :: <regex of the cell expression>
+                    # the function acquires that cell exactly ONCE: its decision and its action are one
+                    # critical section (a second acquisition = check-then-act: another handle can act in between)
+                    parts_ = [x.strip() for x in l.split(" :: ")]
+                    tg_ = re.search(r"\[([C0-9, ]+)\]", parts_[0])
+                    spec.atomics = getattr(spec, "atomics", []) + [(t[1], tg_.group(1).replace(" ", "") if tg_ else "-", parts_[1])]
                     i += 1
                 elif t[0] == "@@nodecreases":
                     # the loop of <fn> has no measure in general (it runs as long as its input is ready):
